@@ -270,7 +270,17 @@ def rule_c19_r1(model: Model) -> RuleResult:
     cfg = cfg_of(model, of)
     nz = Normalizer(model, of, cfg, param_map=_pm(of))
     r.analysed.add(of.qualname)
-    rets = [(n, nz.expr(n.ast.value, n)) for n in cfg.live_nodes() if n.kind == 'return' and n.ast is not None and n.ast.value is not None]
+    rets = []
+    rd_ = cfg.reaching()
+    for n in cfg.live_nodes():
+        if n.kind == 'return' and n.ast is not None and n.ast.value is not None:
+            v = n.ast.value
+            defs = rd_.at(n, v.id) if isinstance(v, ast.Name) and rd_.is_local(v.id) else []
+            if len(defs) > 1 and all(d.kind == 'assign' and d.value is not None and not d.path for d in defs):
+                # `manager = open(...)` in one arm, `manager = nullcontext(...)` in the other, one `return manager`
+                rets.extend((d.node, nz.expr(d.value, d.node)) for d in defs)
+            else:
+                rets.append((n, nz.expr(v, n)))
     opens = [(n, x) for (n, x) in rets if x.startswith('open(')]
     nulls = [(n, x) for (n, x) in rets if x.startswith('contextlib.nullcontext(')]
     r.instances += 1
@@ -346,18 +356,19 @@ def rule_c19_r2(model: Model) -> RuleResult:
         f = model.func(fq)
         r.analysed.add(fq)
         calls = [c for c in ast.walk(f.node) if isinstance(c, ast.Call) and (model.resolve(c.func, f.module, f) == target or unparse(c.func) == target)]
-        if len(calls) != 1:
-            raise AnalysisError(f"{f.loc()}: {fq}: expected one call to {target}, found {len(calls)}")
-        kw = {k.arg: unparse(k.value) for k in calls[0].keywords}
+        if not calls or len(calls) > 4:
+            raise AnalysisError(f"{f.loc()}: {fq}: expected a call to {target}, found {len(calls)}")
+        kws = [{k.arg: unparse(k.value) for k in c.keywords} for c in calls]
         for o in opts:
             r.instances += 1
+            bad = next((i for i, kw in enumerate(kws) if kw.get(o) != o), None)
             if o not in f.params:
                 r.fail(fq, f"no parameter {o}", f.loc(), f"the documented formatting option {o} is not accepted")
-            elif kw.get(o) == o:
+            elif bad is None:
                 r.ok()
             else:
-                r.fail(fq, f"{o} -> {kw.get(o)}", f.loc(calls[0]), f"the option {o} is accepted but not handed to {target}: the output ignores it")
-        r.sample({fq: sorted(kw)})
+                r.fail(fq, f"{o} -> {kws[bad].get(o)}", f.loc(calls[bad]), f"the option {o} is accepted but not handed to {target}: the output ignores it")
+        r.sample({fq: sorted(kws[0])})
     # into_data(obj, ty, custom=custom) inside the io writers; ty=self.__class__ in the methods
     for fq in ('pane.io.write_json', 'pane.io.write_yaml'):
         f = model.func(fq)
@@ -374,21 +385,44 @@ def rule_c19_r2(model: Model) -> RuleResult:
         nz = Normalizer(model, f, cfg, param_map=_pm(f))
         r.instances += 1
         target = 'pane.io.' + fq.split('.')[-1]
-        sink = ty = None
+        def f_is_none(n_: Node) -> t.Optional[bool]:
+            """Is the site reached only when no file was given (True), only when one was given (False), or either way (None)?"""
+            out_: t.Optional[bool] = None
+            for (cid, lb) in cfg.conditions_of(n_):
+                cn = cfg.nodes[cid]
+                if cn.kind == 'cond' and cn.ast is not None:
+                    text, pos = nz.literal(cn.ast, cn)
+                    if text in ('$f is None', 'None is $f'):
+                        out_ = (pos == (lb == 'T'))
+            return out_
+        IFX = r'(\$f is None|None is \$f)'
+        sites = []
         for n in cfg.live_nodes():
             for root in node_exprs(n):
                 for c in walk_no_nested(root):
                     if isinstance(c, ast.Call) and model.resolve(c.func, f.module, f) == target and len(c.args) >= 2:
-                        sink = nz.expr(c.args[1], n)
-                        ty = next((nz.expr(k.value, n) for k in c.keywords if k.arg == 'ty'), None)
-        rets = [nz.expr(n.ast.value, n) for n in cfg.live_nodes() if n.kind == 'return' and n.ast is not None and n.ast.value is not None]
-        buf = '(io.StringIO() if $f is None else $f)'
-        r.sample({fq: {'sink': sink, 'returns': rets}})
-        if sink in (buf, '(io.StringIO() if None is $f else $f)') and ty == 'self.__class__' and len(rets) == 1 and \
-                re.match(r'^\(\(io\.StringIO\(\) if (\$f is None|None is \$f) else \$f\)\.getvalue\(\) if (\$f is None|None is \$f) else None\)$', rets[0]):
+                        sites.append((nz.expr(c.args[1], n), next((nz.expr(k.value, n) for k in c.keywords if k.arg == 'ty'), None), f_is_none(n)))
+        rets = [(nz.expr(n.ast.value, n), f_is_none(n)) for n in cfg.live_nodes() if n.kind == 'return' and n.ast is not None and n.ast.value is not None]
+        r.sample({fq: {'writes': sites, 'returns': rets}})
+        ok = bool(sites) and bool(rets)
+        for (sink, ty, when) in sites:
+            if ty != 'self.__class__':
+                ok = False
+            if re.fullmatch(r'\(io\.StringIO\(\) if %s else \$f\)' % IFX, sink or ''):
+                continue
+            if (sink == '$f' and when is False) or (sink == 'io.StringIO()' and when is True):
+                continue
+            ok = False
+        for (form, when) in rets:
+            if re.fullmatch(r'\(\(io\.StringIO\(\) if %s else \$f\)\.getvalue\(\) if %s else None\)' % (IFX, IFX), form):
+                continue
+            if (form == 'None' and when is False) or (form == 'io.StringIO().getvalue()' and when is True):
+                continue
+            ok = False
+        if ok:
             r.ok()
         else:
-            r.fail(fq, f"sink={sink}, ty={ty}, returns {rets}", f.loc(), "the method must write self as its own class and return the text exactly when no file was given")
+            r.fail(fq, f"writes {sites}, returns {rets}", f.loc(), "the method must write self as its own class and return the text exactly when no file was given")
     # readers
     for (fq, lib) in (('pane.io.from_json', 'json.load'), ('pane.io.from_yaml', 'yaml.load'), ('pane.io.from_yaml_all', 'yaml.load_all')):
         f = model.func(fq)
@@ -513,10 +547,45 @@ def rule_c19_r3(model: Model) -> RuleResult:
     return r
 
 
+def _dict_items(f: FuncInfo, name: str, cfg: t.Any, nz: Normalizer) -> t.Optional[t.List[t.Tuple[str, str]]]:
+    """(key, normal form of the value) of everything ever stored in the local dictionary ``name`` (display items and ``name[k] = v``
+    stores); None when the dictionary is filled in a way the rule cannot enumerate."""
+    out: t.List[t.Tuple[str, str]] = []
+    for n in cfg.live_nodes():
+        a = n.ast
+        if n.kind != 'stmt' or a is None:
+            continue
+        tgts = a.targets if isinstance(a, ast.Assign) else ([a.target] if isinstance(a, ast.AnnAssign) and a.value is not None else [])
+        for tg in tgts:
+            if isinstance(tg, ast.Name) and tg.id == name:
+                v = a.value
+                if isinstance(v, ast.Dict):
+                    for k, x in zip(v.keys, v.values):
+                        if not (isinstance(k, ast.Constant) and isinstance(k.value, str)):
+                            return None
+                        out.append((k.value, nz.expr(x, n)))
+                elif isinstance(v, ast.Call) and isinstance(v.func, ast.Name) and v.func.id == 'dict' and not v.args:
+                    for kw in v.keywords:
+                        if kw.arg is None:
+                            return None
+                        out.append((kw.arg, nz.expr(kw.value, n)))
+                else:
+                    return None
+            elif isinstance(tg, ast.Subscript) and isinstance(tg.value, ast.Name) and tg.value.id == name:
+                if not (isinstance(tg.slice, ast.Constant) and isinstance(tg.slice.value, str)):
+                    return None
+                out.append((tg.slice.value, nz.expr(a.value, n)))
+        for sub in walk_no_nested(a):
+            if isinstance(sub, ast.Call) and isinstance(sub.func, ast.Attribute) and isinstance(sub.func.value, ast.Name) \
+                    and sub.func.value.id == name and sub.func.attr in ('update', 'setdefault', 'pop', '__setitem__', 'clear'):
+                return None
+    return out
+
+
 def rule_spec_substitution_keeps_settings(model: Model, rule_id: str = 'C18-R7') -> RuleResult:
     """C18 / C17: specialising a generic class changes a field's type and nothing else (its converter, names, defaults stay)."""
     r = RuleResult(rule_id, "type-variable substitution of a field declaration replaces its type only (the field's own converter and every "
-                            "other setting are kept)", floor=2)
+                            "other setting are kept)", floor=1)
     f = model.func('pane.field.FieldSpec.replace_typevars')
     cfg = cfg_of(model, f)
     nz = Normalizer(model, f, cfg, param_map=_pm(f))
@@ -526,6 +595,15 @@ def rule_spec_substitution_keeps_settings(model: Model, rule_id: str = 'C18-R7')
             continue
         r.instances += 1
         form = nz.expr(n.ast.value, n)
+        # `changes = {}; if ...: changes['ty'] = ...; return replace(self, **changes)`: spell the keyword dictionary out
+        rv = n.ast.value
+        if isinstance(rv, ast.Call):
+            for k_ in rv.keywords:
+                if k_.arg is None and isinstance(k_.value, ast.Name):
+                    items = _dict_items(f, k_.value.id, cfg, nz)
+                    if items is not None:
+                        spelled = ', '.join(f"{a}={b}" for a, b in items)
+                        form = re.sub(r',?\s*\*\*\{[^{}]*\}', (', ' + spelled) if spelled else '', form)
         r.sample({'returns': form[:120]})
         alts = [form]
         if form.startswith('PHI(') and form.endswith(')'):
